@@ -4,7 +4,10 @@ Engine E6 x E5: one subprocess per real reactor class (select, poll, epoll, asyn
 K producer threads each issue M calls `reactor.callFromThread(record, tid, seq)` with seeded
 micro-pauses while `sys.monitoring` LINE events inject GIL yields inside `callFromThread`,
 `runUntilCurrent`, `wakeUp` and the waker (nowhere else).  Every k-th call, when it runs, issues a
-further call re-entrantly from the reactor thread (pseudo-thread "R").
+further call re-entrantly from the reactor thread (pseudo-thread "R").  About 4 % of the calls RAISE
+(PlannedFailure, after recording themselves; the reactor's logged failure is whitelisted), and so
+does every second thread's last call, which is alone in its batch: a failing call must still count
+as run exactly once and must not disturb its neighbours.
 
 Monitor (log appended under a lock, in practice always from the reactor thread): (tid, seq,
 executing thread ident).  Oracle, evaluated once the per-thread *sentinel* calls have run (a
@@ -45,8 +48,8 @@ ASSUMPTIONS = [
 ]
 SHARDS = {"quick": 4, "thorough": 16}
 FLOORS = {
-    "quick": {"calls_executed": 4 * 9000, "idle_calls_measured": 4 * 20, "rounds_decided": 16, "yields_injected": 2000, "reentrant_calls_executed": 100},
-    "thorough": {"calls_executed": 100000, "idle_calls_measured": 4 * 20, "rounds_decided": 16, "yields_injected": 10000, "reentrant_calls_executed": 500},
+    "quick": {"calls_executed": 4 * 9000, "idle_calls_measured": 4 * 20, "rounds_decided": 16, "yields_injected": 2000, "reentrant_calls_executed": 100, "raising_calls_executed": 1000},
+    "thorough": {"calls_executed": 100000, "idle_calls_measured": 4 * 20, "rounds_decided": 16, "yields_injected": 10000, "reentrant_calls_executed": 500, "raising_calls_executed": 2000},
 }
 WATCHDOG_S = {"quick": 600, "thorough": 3000}
 READY = True
@@ -57,6 +60,11 @@ IDLE_REPS = 20
 ROUND_WATCHDOG_S = 60.0
 R_WATCHDOG_S = 20.0
 REENTRANT_EVERY = 17
+RAISE_EVERY = 23
+
+
+class PlannedFailure(Exception):
+    """Raised on purpose by some recorded calls (logged by the reactor; whitelisted)."""
 
 
 # ------------------------------------------------------------------------------------------ child
@@ -86,6 +94,12 @@ def scenario(reactor, inp):
             st["in_batch"] += 1
             return True
 
+    def record_and_raise(rid, tid, seq):
+        # a call that fails AFTER recording itself: it still counts as run exactly once; the reactor
+        # logs the failure (whitelisted: PlannedFailure) and must carry on with the next call
+        if record(rid, tid, seq):
+            raise PlannedFailure("%s:%s" % (tid, seq))
+
     def record_and_spawn(rid, tid, seq):
         if not record(rid, tid, seq):
             return
@@ -109,6 +123,21 @@ def scenario(reactor, inp):
 
     reactor.runUntilCurrent = ruc_wrapper
 
+    logged = {"planned": 0, "other": []}
+
+    def observer(event):
+        f = event.get("log_failure")
+        if f is not None:
+            with lock:
+                if f.check(PlannedFailure):
+                    logged["planned"] += 1
+                elif len(logged["other"]) < 5:
+                    logged["other"].append("%s: %s" % (getattr(f.type, "__name__", "?"), f.getErrorMessage()[:200]))
+
+    from twisted.logger import globalLogPublisher
+
+    globalLogPublisher.addObserver(observer)
+
     ticker = {"stop": False, "stopped": threading.Event(), "left": None}
 
     def tick():
@@ -130,6 +159,8 @@ def scenario(reactor, inp):
                     time.sleep(0)
                 if seq % REENTRANT_EVERY == 3:
                     reactor.callFromThread(record_and_spawn, rid, tid, seq)
+                elif seq % RAISE_EVERY == 5:
+                    reactor.callFromThread(record_and_raise, rid, tid, seq)
                 else:
                     reactor.callFromThread(record, rid, tid, seq)
         except BaseException as e:
@@ -170,6 +201,8 @@ def scenario(reactor, inp):
                 # last call of pseudo-thread R: issued after every spawner has run; from a timed
                 # call, i.e. not while the thread-call queue is being drained (same reason as above)
                 reactor.callLater(0.05, reactor.callFromThread, r_sentinel)
+            if tid % 2 == 0:
+                raise PlannedFailure("sentinel %s" % tid)  # a raising call that is the last (only) one of its batch
 
         def r_sentinel():
             with lock:
@@ -269,6 +302,8 @@ def scenario(reactor, inp):
     reactor.callWhenRunning(begin)
     reactor.run()
     stopped.set()
+    result["planned_failures_logged"] = logged["planned"]
+    result["other_failures_logged"] = logged["other"]
     return result
 
 
@@ -299,7 +334,8 @@ def analyse(log, K, M, reactor_ident):
     lost = sorted((k for k, v in expected.items() if v == 0 and k[0] != "R"), key=repr)
     lost_r = sorted((k for k, v in expected.items() if v == 0 and k[0] == "R"), key=repr)
     dup = sorted(((k, v) for k, v in expected.items() if v > 1), key=repr)
-    return {"executed": len(log), "planned": len(expected), "reentrant_executed": sum(v for (t, _), v in expected.items() if t == "R"),
+    raising = sum(1 for (t, q), v in expected.items() if t != "R" and v and ((q < M and q % REENTRANT_EVERY != 3 and q % RAISE_EVERY == 5) or (q == M and t % 2 == 0)))
+    return {"executed": len(log), "planned": len(expected), "raising_executed": raising, "reentrant_executed": sum(v for (t, _), v in expected.items() if t == "R"),
             "lost": [list(k) for k in lost[:10]], "n_lost": len(lost),
             "lost_r": [list(k) for k in lost_r[:10]], "n_lost_r": len(lost_r),
             "duplicated": [[list(k), v] for k, v in dup[:10]], "n_dup": len(dup),
@@ -341,6 +377,7 @@ def judge(ctx, name, out):
         base["reactor"] = name
         ctx.count("calls_executed", rd["executed"])
         ctx.count("reentrant_calls_executed", rd["reentrant_executed"])
+        ctx.count("raising_calls_executed", rd["raising_executed"])
         ctx.count("yields_injected", rd["yields"])
         ctx.count("monitored_lines", rd["lines"])
         ctx.count("batches", rd["n_batches"])
@@ -374,6 +411,10 @@ def judge(ctx, name, out):
             ctx.distinct((name, rd["K"], rd["M"], rd["p"], rd["pace"], rd["batch_sig"]))
         ctx.sample({"reactor": name, "K": rd["K"], "M": rd["M"], "p": rd["p"], "pace": rd["pace"], "executed": rd["executed"], "batches": rd["n_batches"],
                     "batch_head": rd["batch_head"][:20], "log_head": rd["log_head"], "yields": rd["yields"]}, limit=4)
+    ctx.count("planned_failures_logged", out.get("planned_failures_logged", 0))
+    for txt in out.get("other_failures_logged", []):
+        ctx.count("unexpected_logged_failures")  # evidence only
+        ctx.seen("unexpected_logged_failures", txt)
     idle = out.get("idle")
     if idle is None:
         ctx.inconclusive("C13 %s: idle phase not reached" % name)
